@@ -13,7 +13,7 @@ RULE = ("Each run: ThompsonSampling with a drawn binarizer (arm-dependent thresh
         "or under a drawn neighbourhood policy; history of fit / partial_fit / queries / arm changes including "
         "add_arm(arm, new_binarizer); a replica WITHOUT binarizer receives binarizer(decision, reward) for every "
         "observation (the binarizer in force at that time) and must return exactly the same results from the same seed.")
-EXPECTED_PROBES = ["probe.add_arm_with_new_binarizer", "probe.reward_changed_by_second_application"]
+EXPECTED_PROBES = ["probe.built_without_binarizer", "probe.add_arm_with_new_binarizer", "probe.reward_changed_by_second_application"]
 
 
 def generate(rnd, tier, index=0):
@@ -24,8 +24,27 @@ def generate(rnd, tier, index=0):
     rkind = "anyint" if regime == "exact" else "anyreal"
     ops = gen.gen_history(rnd, cfg, spare, d, regime, rnd.randint(4, 14), max_rows=14, rkind="anyint", binarizers=True,
                           refit=0.1)
+    late = rnd.random() < 0.3
+    if late:
+        # the bandit is built WITHOUT a binarizer (binary rewards) and gets its first one from add_arm later on
+        first = next((i for i, o in enumerate(ops) if o["op"] == "add_arm"), None)
+        if first is None and spare:
+            first = rnd.randint(1, len(ops))
+            ops.insert(first, {"op": "add_arm", "arm": spare[-1]})
+        if first is not None:
+            ops[first]["binarizer"] = rnd.choice(["gt10", "arm_thr", "lt_arm", "ge5_int"])
+            for o in ops[:first]:
+                if o["op"] in ("fit", "partial_fit"):
+                    for r in o["rows"]:
+                        r[1] = r[1] % 2
+                if o["op"] == "add_arm":
+                    o.pop("binarizer", None)
+            cfg["lp"] = ["ThompsonSampling", {}]
     if rkind == "anyreal":
-        for op in ops:
+        start = 0
+        if cfg["lp"][1].get("binarizer") is None:       # binary rewards until the first binarizer arrives
+            start = next((i for i, o in enumerate(ops) if o["op"] == "add_arm" and o.get("binarizer")), len(ops))
+        for op in ops[start:]:
             if op["op"] in ("fit", "partial_fit"):
                 for r in op["rows"]:
                     r[1] = r[1] + rnd.choice([0.0, 0.25, 0.5])
@@ -33,13 +52,17 @@ def generate(rnd, tier, index=0):
 
 
 def _convert(rows, bname):
+    if bname is None:
+        return [list(r) for r in rows]
     f = BINARIZERS[bname]
     return [[r[0], int(bool(f(r[0], r[1]))), r[2]] for r in rows]
 
 
 def execute(case, ctx):
     cfg = case["cfg"]
-    cur_b = cfg["lp"][1]["binarizer"]
+    cur_b = cfg["lp"][1].get("binarizer")       # None: built without a binarizer (binary rewards pass unchanged)
+    if cur_b is None:
+        ctx.fired("probe.built_without_binarizer")
     P = Session(cfg)
     R = Session(cfg, lp=["ThompsonSampling", {}])
     for step, op in enumerate(case["ops"]):
@@ -49,7 +72,7 @@ def execute(case, ctx):
         op_r = op
         if kind in ("fit", "partial_fit"):
             op_r = {"op": kind, "rows": _convert(op["rows"], cur_b)}
-            f = BINARIZERS[cur_b]
+            f = BINARIZERS[cur_b] if cur_b else (lambda a, r: r)
             if any(bool(f(r[0], int(bool(f(r[0], r[1]))))) != bool(f(r[0], r[1])) for r in op["rows"]):
                 ctx.fired("probe.reward_changed_by_second_application")
         elif kind == "add_arm":
